@@ -144,3 +144,29 @@ Theorem C08_K1_swap_linearizable :
   (List.length (scheds2 Swap) = 10 /\ List.length (scheds3 Swap) = 60)%nat.
 Proof. exact k1_swap_linearizable. Qed.
 Print Assumptions C08_K1_swap_linearizable.
+
+Theorem C08_K1_swap_linearizable_with_delete :
+  forallb (fun sched => linearizable (history_of sched)) (scheds4 Swap) = true /\ List.length (scheds4 Swap) = 420%nat.
+Proof. exact k1_swap_linearizable_with_delete. Qed.
+Print Assumptions C08_K1_swap_linearizable_with_delete.
+
+Theorem C08_K1_swap_linearizable_two :
+  forallb (fun sched => linearizable (history_of sched)) scheds_two_expire = true /\
+  forallb (fun sched => linearizable (history_of sched)) scheds_two_cleanup = true /\
+  (List.length scheds_two_expire = 210 /\ List.length scheds_two_cleanup = 210)%nat.
+Proof. exact k1_swap_linearizable_two. Qed.
+Print Assumptions C08_K1_swap_linearizable_two.
+
+(* D16, in the same slot model: the cleanup removing BY KEY what it judged (before fix 0d54a0a) loses a fresh entry a
+   concurrent Write stored in between — a completed Write followed by a Read that finds nothing; removing with
+   CompareAndDelete (the code now: C11_source_sync_delete_entry) is linearizable on every interleaving *)
+Theorem C08_D16_by_key_refuted :
+  existsb (fun sched => negb (linearizable (history_of sched))) (scheds_d16 true) = true /\
+  In [XUnit; XUnit; XUnit; XNotFound] (map (fun sched => map o_res (history_of sched)) (scheds_d16 true)).
+Proof. exact d16_by_key_refuted. Qed.
+Print Assumptions C08_D16_by_key_refuted.
+
+Theorem C08_D16_compare_and_delete_linearizable :
+  forallb (fun sched => linearizable (history_of sched)) (scheds_d16 false) = true /\ List.length (scheds_d16 false) = 3%nat.
+Proof. exact d16_compare_and_delete_linearizable. Qed.
+Print Assumptions C08_D16_compare_and_delete_linearizable.
